@@ -84,7 +84,8 @@ def normalize_opb(constraint):
     """
     value = constraint[-1]
     op    = constraint[-2]
-    combinations = constraint[:-2]
+    # terms with a null coefficient do not contribute
+    combinations = [(c,l) for (c,l) in constraint[:-2] if c != 0]
 
     # reduce strict inequalities to loose inequalities
     if op == '<':
